@@ -61,6 +61,7 @@ class Profile:
         self.default_args = dict(default_args or {})  # stripped type -> C expression for CXXDefaultArgExpr
         self.literal_ids = literal_ids            # StringTable or None
         self.string_types = set(string_types or ())  # C scalar types that model strings as opaque ids (DESIGN 5.3)
+        self.type_patterns = []                   # [(compiled regex on the stripped C++ type, C type)] tried after the exact map
         # free / static functions known to be side-effect free (needed only to justify dropping a logging call)
         self.pure_fns = set(pure_fns or ()) | {'number', 'fromUtf8', 'fromLatin1', 'operator""_s', 'toString', 'arg', 'qMax', 'qMin', 'size', 'isEmpty', 'toHex', 'toUtf8', 'toLatin1', 'count', 'length', 'isNull', 'data', 'constData', 'tagName', 'attribute', 'namespaceURI', 'errorString', 'toBase64', 'join', 'left', 'mid', 'id', 'type', 'from', 'to'}
 
@@ -118,6 +119,9 @@ class Lowerer:
                 return self.p.types[s] + ptr
             if s in SCALARS:
                 return SCALARS[s] + ptr
+            for rx, ct in getattr(self.p, 'type_patterns', ()):
+                if rx.fullmatch(s):
+                    return ct + ptr
         raise Unsupported('type %s' % (t if t is not None else qt(node) + ' / ' + dqt(node)))
 
     def ntype(self, n):
@@ -143,6 +147,9 @@ class Lowerer:
             base = s.rstrip('*')
             if base in self.p.types or base in SCALARS:
                 return (self.p.types.get(base) or SCALARS.get(base)) + s[len(base):]
+            for rx, ct in getattr(self.p, 'type_patterns', ()):
+                if rx.fullmatch(base):
+                    return ct + s[len(base):]
         return strip_type(qt(n))
 
     def newtmp(self):
@@ -640,6 +647,12 @@ class Lowerer:
         nargs = len([a for a in argn if a.get('kind') != 'CXXDefaultArgExpr'])
         keys = ['fn:%s/%d' % (name, nargs), 'fn:%s' % name]
         key = next((k for k in keys if k in self.p.calls), None)
+        if key is None and nargs == 0 and name in ('max', 'min', 'lowest') and re.search(r'\(\)( const)?( noexcept)?$', rd.get('type', {}).get('qualType', '')):
+            # std::numeric_limits<T>::max() / min() / lowest(): the limit of the (machine) result type
+            lim = numeric_limit(dqt(n), name)
+            if lim is not None:
+                self.fire('numeric_limits:%s:%s' % (name, dqt(n)))
+                return lim
         if key is None:
             raise Unsupported('call fn:%s/%d' % (name, nargs))
         rule = self.p.calls[key]
@@ -1247,14 +1260,35 @@ def find_string(n):
     return None
 
 
+class LoopMismatch(Unsupported):
+    pass
+
+
+def numeric_limit(ctype_name, which):
+    t = strip_type(ctype_name)
+    bits = {'char': 8, 'signed char': 8, 'unsigned char': 8, 'short': 16, 'unsigned short': 16, 'int': 32, 'unsigned int': 32,
+            'long': 64, 'unsigned long': 64, 'long long': 64, 'unsigned long long': 64}.get(t)
+    if bits is None:
+        return None
+    unsigned = t.startswith('unsigned')
+    if which == 'max':
+        v = (1 << bits) - 1 if unsigned else (1 << (bits - 1)) - 1
+        suf = ('u' if unsigned else '') + ('l' if bits == 64 else '')
+        return '((%s)%d%s)' % (SCALARS.get(t, t), v, suf)
+    if unsigned:
+        return '((%s)0)' % SCALARS.get(t, t)
+    return '((%s)(-%d%s - 1))' % (SCALARS.get(t, t), (1 << (bits - 1)) - 1, 'l' if bits == 64 else '')
+
+
 def apply_splices(text, contract, loops):
-    """insert the unit's contract clauses at the markers; every provided loop spec must find its marker"""
+    """insert the unit's contract clauses at the markers; every provided loop spec must find its marker, and every loop of
+    the lowered function must have a spec when any loop spec is given (otherwise the loop structure has changed)"""
     if '/*@CONTRACT@*/' not in text:
         raise Unsupported('no contract marker')
     text = text.replace('/*@CONTRACT@*/', contract or '', 1)
     for num, spec in (loops or {}).items():
         m = '/*@LOOP%d@*/' % num
         if m not in text:
-            raise Unsupported('contract names loop %d which does not exist in the lowered function (renamed/restructured code)' % num)
+            raise LoopMismatch('contract names loop %d which does not exist in the lowered function (renamed/restructured code)' % num)
         text = text.replace(m, spec, 1)
     return text
